@@ -1046,6 +1046,10 @@ func (ro *RedisOutput) sendCmdsBatch(replayWait usync.WaitCloser, conn client.Re
 				delayNs:    delayNs,
 			}:
 			case <-replayWait.Context().Done():
+				// the batch has already been dispatched to the target,
+				// it must not stay queued and be sent a second time
+				cmdQueue = cmdQueue[:0]
+				queuedByteSize = 0
 				return replayWait.Error()
 			}
 		} else {
